@@ -333,7 +333,7 @@ mod n {
     fn n_c06_dispatch() {
         drive(
             "C06.dispatch",
-            "Wall::u_value(&Model): wall over 4 boundary kinds x tilt {0,90,180} x adjacent {none, s1, dangling} x construction {ok, not in model, with missing material} x own space {s0, dangling}; s0 / s1 over 3 kinds; s1 ventilation {none, 0.8 1/h}; building ventilation {none, 30 l/s}; s1 bounded by a slab on the ground and an exterior wall with a window",
+            "Wall::u_value(&Model): wall over 4 boundary kinds x tilt {0,90,180} x adjacent {none, s1, dangling} x construction {ok, not in model, with missing material} x own space {s0, dangling}; s0 / s1 over 3 kinds; s1 ventilation {none, 0.8 1/h}; building ventilation {none, 30 l/s} (then s0 with multiplier {1, 3}); s1 bounded by a slab on the ground and an exterior wall with a window",
             |c| {
                 let b = c.of(&BOUNDS);
                 let tilt = c.of(&[0.0f32, 90.0, 180.0]);
@@ -346,7 +346,9 @@ mod n {
                 let vent = c.of(&[None, Some(30.0f32)]);
                 let mut m = empty_model();
                 m.meta.global_ventilation_l_s = vent;
-                m.spaces.push(space(0xA0, true, k0, 1.0, 3.0));
+                // the building-wide rate spreads the flow over the volume of every instance of a space
+                let mult0 = if vent.is_some() { c.of(&[1.0f32, 3.0]) } else { 1.0 };
+                m.spaces.push(space(0xA0, true, k0, mult0, 3.0));
                 let mut s1 = space(0xA1, true, k1, 1.0, 2.5);
                 s1.n_v = nv1;
                 m.spaces.push(s1);
@@ -440,7 +442,7 @@ mod n {
                                     };
                                     // building-wide rate: 3.6 * l/s / net volume of the habitable spaces inside the envelope
                                     let hab = |k: SpaceType| k != SpaceType::UNINHABITED;
-                                    let vinh = (if hab(k0) { area0 * hnet0 } else { 0.0 }) + (if hab(k1) { area1 * hnet1 } else { 0.0 });
+                                    let vinh = (if hab(k0) { area0 * hnet0 * mult0 as f64 } else { 0.0 }) + (if hab(k1) { area1 * hnet1 } else { 0.0 });
                                     let n = match nv {
                                         Some(n) => n as f64,
                                         None => match vent {
